@@ -28,8 +28,9 @@ struct H { Cls c; int id; };
 // ops 0..4 typed inserts, 5..9 clear<Class>, 10 clear, 11..15 typed inserts with a null argument
 const char *OPN[] = { "appendAttrHandler", "appendFilter", "setFormatter", "appendSink", "appendPipeline",
                       "clearAttrHandlers", "clearFilters", "clearFormatters", "clearSinks", "clearPipelines", "clear",
-                      "appendAttrHandler(null)", "appendFilter(null)", "setFormatter(null)", "appendSink(null)", "appendPipeline(null)" };
-const int NOPS = 16;
+                      "appendAttrHandler(null)", "appendFilter(null)", "setFormatter(null)", "appendSink(null)", "appendPipeline(null)",
+                      "setFormatter(the installed one again)" };
+const int NOPS = 17;
 
 struct World {
     SortedPipeline sp;
@@ -37,6 +38,7 @@ struct World {
     std::map<const Handler *, H> ident;
     std::vector<H> ref; // reference model: always kept in class-rank order, stable
     int next = 1;
+    FormatterPtr curFmt; int curFmtId = 0;   // the formatter object handed to setFormatter() last (a configuration routine that runs twice hands it in again)
 
     void refInsert(Cls c, int id)
     {
@@ -52,7 +54,10 @@ struct World {
         switch (op) {
         case 0: { auto h = QSharedPointer<RA>::create(id, &rec); ident[h.data()] = { A, id }; sp.appendAttrHandler(h); refInsert(A, id); break; }
         case 1: { auto h = QSharedPointer<RF>::create(id, &rec); ident[h.data()] = { F, id }; sp.appendFilter(h); refInsert(F, id); break; }
-        case 2: { auto h = QSharedPointer<RM>::create(id, &rec); ident[h.data()] = { M, id }; sp.setFormatter(h); refClear(M); refInsert(M, id); break; }
+        case 2: { auto h = QSharedPointer<RM>::create(id, &rec); ident[h.data()] = { M, id }; sp.setFormatter(h); refClear(M); refInsert(M, id); curFmt = h; curFmtId = id; break; }
+        case 16: {
+            if (!curFmt) { auto h = QSharedPointer<RM>::create(id, &rec); ident[h.data()] = { M, id }; curFmt = h; curFmtId = id; }
+            sp.setFormatter(curFmt); refClear(M); refInsert(M, curFmtId); break; }
         case 3: { auto h = QSharedPointer<RS>::create(id, &rec); ident[h.data()] = { S, id }; sp.appendSink(h); refInsert(S, id); break; }
         case 4: {
             auto p = PipelinePtr::create();
@@ -181,7 +186,7 @@ int main(int argc, char **argv)
     int depth = vx::argInt(argc, argv, "--depth", 6);
     const char *replay = vx::argStr(argc, argv, "--replay-ops", nullptr);
     vx::Summary sum;
-    sum.bound = "call sequences <= " + std::to_string(depth) + " over 16 calls";
+    sum.bound = "call sequences <= " + std::to_string(depth) + " over 17 calls";
 
     if (replay) { // comma separated op indices
         std::vector<int> h;
@@ -196,7 +201,8 @@ int main(int argc, char **argv)
     int nd = vx::argInt(argc, argv, "--nodedup-depth", 0);
     int shard = vx::argInt(argc, argv, "--shard", 0), nshards = vx::argInt(argc, argv, "--nshards", 1);
     if (nd > 0) {
-        const int NB = 11;
+        const int NB = 12;
+        const int NBOPS[NB] = { 0, 1, 2, 3, 4, 5, 6, 7, 8, 9, 10, 16 };
         std::vector<int> h;
         long long top = 0;
         std::function<void()> rec = [&] {
@@ -207,14 +213,15 @@ int main(int argc, char **argv)
                 if (v) return;
             }
             if ((int)h.size() == nd) return;
-            for (int op = 0; op < NB; op++) {
+            for (int oi = 0; oi < NB; oi++) {
+                int op = NBOPS[oi];
                 if (h.size() == 1 && nd >= 2 && (top++ % nshards) != shard) continue;   // shard on the first two calls
                 h.push_back(op); rec(); h.pop_back();
             }
         };
         if (nd < 2 && shard != 0) { sum.print(); return 0; }
         rec();
-        sum.bound = "all call sequences <= " + std::to_string(nd) + " over 11 calls, no state merging";
+        sum.bound = "all call sequences <= " + std::to_string(nd) + " over 12 calls, no state merging";
         if (depth <= 0) { sum.print(); return 0; }
     }
 
